@@ -168,6 +168,8 @@ impl<T> RcInner<T> {
     ///
     /// The given `ptr` must not be shared across more than one thread.
     pub(crate) unsafe fn dealloc(ptr: *mut Self) {
+        #[cfg(feature = "circ_verif")]
+        crate::verif::ev(crate::verif::kind::DEALLOC, ptr as usize, 0, 0);
         drop(Box::from_raw(ptr));
     }
 
@@ -204,6 +206,8 @@ impl<T> RcInner<T> {
         #[cfg(feature = "circ_verif")]
         crate::verif::yp(crate::verif::site::TRY_DEALLOC_LOAD, core::ptr::addr_of!((*ptr).state) as usize);
         if State::from_raw((*ptr).state.load(Ordering::SeqCst)).weak() > 0 {
+            #[cfg(feature = "circ_verif")]
+            crate::verif::ev(crate::verif::kind::DEALLOC_SKIPPED, ptr as usize, 0, 0);
             Self::decrement_weak(ptr, None);
         } else {
             Self::dealloc(ptr);
@@ -322,6 +326,8 @@ impl<T: RcObject> RcInner<T> {
             }
         };
 
+        #[cfg(feature = "circ_verif")]
+        crate::verif::ev(crate::verif::kind::STAMP_WRITE, ptr as usize, epoch, count as usize);
         let trigger_recl = |guard: &Guard| {
             if hit_zero {
                 guard.defer_with_inner(ptr, |inner| Self::try_destruct(inner));
@@ -345,6 +351,8 @@ impl<T: RcObject> RcInner<T> {
         debug_assert!(!old.destructed());
         loop {
             if old.strong() > 0 {
+                #[cfg(feature = "circ_verif")]
+                crate::verif::ev(crate::verif::kind::DESTRUCT_SKIPPED, ptr as usize, 0, 0);
                 Self::decrement_strong(ptr, 1, None);
                 return;
             }
@@ -366,6 +374,8 @@ impl<T: RcObject> RcInner<T> {
 
 #[inline]
 unsafe fn dispose<T: RcObject>(inner: *mut RcInner<T>) {
+    #[cfg(feature = "circ_verif")]
+    crate::verif::ev(crate::verif::kind::DESTRUCT_ROOT, inner as usize, 0, 0);
     DISPOSE_COUNTER.with(|counter| {
         let guard = &cs();
         dispose_general_node(inner, 0, counter, guard);
@@ -394,6 +404,8 @@ unsafe fn dispose_general_node<T: RcObject>(
 
     if depth >= 1024 {
         // Prevent a potential stack overflow.
+        #[cfg(feature = "circ_verif")]
+        crate::verif::ev(crate::verif::kind::RECLAIM_DEFER, rc as *mut RcInner<T> as usize, depth, 1);
         guard.defer_with_inner(rc, |rc| RcInner::try_destruct(rc));
         return;
     }
@@ -412,6 +424,8 @@ unsafe fn dispose_general_node<T: RcObject>(
     // old enough, `modu.le` may return false.
     if depth == 0 || modu.le(node_epoch as _, curr_epoch as isize - 3) {
         // The current node is immediately reclaimable.
+        #[cfg(feature = "circ_verif")]
+        crate::verif::ev(crate::verif::kind::RECLAIM_NOW, rc as *mut RcInner<T> as usize, depth, curr_epoch);
         rc.data_mut().pop_edges(&mut outgoings);
         unsafe {
             ManuallyDrop::drop(&mut rc.storage);
@@ -464,6 +478,8 @@ unsafe fn dispose_general_node<T: RcObject>(
         }
     } else {
         // It is likely to be unsafe to reclaim right now.
+        #[cfg(feature = "circ_verif")]
+        crate::verif::ev(crate::verif::kind::RECLAIM_DEFER, rc as *mut RcInner<T> as usize, depth, 0);
         guard.defer_with_inner(rc, |rc| RcInner::try_destruct(rc));
     }
 }
